@@ -146,7 +146,7 @@ def canon(obs):
                     code = t[1]
         return ("dead", code, max(o["fails"], wire_failures(obs)) >= R.FAIL_CAP, o["exc"])
     return ("alive", o["ah_authed"], o["user"], o.get("m_user"), o["fails"], wire_failures(obs),
-            wire_success(obs), o["expected"], o["handler"])
+            wire_success(obs), o["expected"], o["handler"], o.get("hidden"))
 
 
 def wire_failures(obs):
